@@ -151,6 +151,7 @@ def collect(res, s, mon, cfg):
     res["known_hits"] = dict(mon.known_hits)
     res["diags"] = dict(s.diags) if s else {}
     res["events"] = len(s.trace) if s else 0
+    res.setdefault("aborted", None)
     res["virtual_ms"] = getattr(s, "virtual_ms", 0) if s else 0
     res["digest"] = s.digest() if s else None
     res["states"] = list(s.states_seen)[:5000] if s else []
